@@ -191,6 +191,10 @@ def generate(repo):
     m = re.fullmatch(r'%\.(\d+)g', fmt)
     out.append('/-- precision p of the `%.pg` default magnitude format (0 when the template has another shape) -/')
     out.append('def magnitudePrecision : Nat := %d' % (int(m.group(1)) if m else 0))
+    fac = _class_assign(_class(tree, 'Printer'), '_default_setting_factories')
+    if not isinstance(fac, ast.Call) or any(k.arg is None for k in fac.keywords):
+        raise ExtractError('_default_setting_factories is not dict(k=...)')
+    base_keys = list(base) + [k.arg for k in fac.keywords]
     attrs = _class_assign(_class(tree, 'Printer'), '_default_setting_attrs')
     if not isinstance(attrs, ast.Call):
         raise ExtractError('_default_setting_attrs is not dict(...)')
@@ -203,6 +207,8 @@ def generate(repo):
     src, tree = parse(repo, P_STRING)
     sp = _class(tree, 'StrPrinter')
     st, args = _settings(sp)
+    out.append('/-- every setting name `StrPrinter(settings)` accepts (defaults of Printer and StrPrinter, factories, attribute settings) -/')
+    out.append('def settingKeys : List String := %s' % lean_str_list(sorted(set(base_keys) | set(ad) | set(st))))
     emit('strReactionArrow', _str(st['Reaction_arrow'], 'Reaction_arrow'), 'StrPrinter: Reaction_arrow')
     emit('strEquilibriumArrow', _str(st['Equilibrium_arrow'], 'Equilibrium_arrow'), 'StrPrinter: Equilibrium_arrow')
     for k in ('Reaction_param_separator', 'Reaction_coeff_space', 'Reaction_around_arrow'):
